@@ -27,7 +27,8 @@
 (*     <<7>>                         no probe (Inf, burst 0, or halted)       *)
 EXTENDS MC_RateLimiter, TLC, Json
 
-CONSTANTS Family, TickMs
+CONSTANTS Family, TickMs,
+          Kinds    \* the calls of this family (a subset of "allow", "reserve", "cancel", "delay", "setlimit")
 VARIABLES hist, done, limit0
 gvars == <<vars, hist, done, limit0>>
 
@@ -35,7 +36,14 @@ GDtsQuick == {1, 8}
 GDtsFwd   == {1, 3, 8, 24}
 GDtsBack  == {-8, -1, 1, 8}
 GDtsSim   == {-8, -1, 0, 1, 2, 3, 4, 8, 12, 24}
+GDtsNone  == {}
+Rate2     == {2}
+Rates18   == {1, 8}
+Rate1     == {1}
+Rate8     == {8}
 RatesAll  == {1, 2, 8, Inf}
+KAll      == {"allow", "reserve", "cancel", "delay", "setlimit"}
+KNoDelay  == {"allow", "reserve", "cancel", "setlimit"}
 
 B01(x) == IF x THEN 1 ELSE 0
 
@@ -56,6 +64,7 @@ GenInit == Init /\ hist = <<>> /\ done = FALSE /\ limit0 = limit
 GenNext ==
   \/ /\ ~done
      /\ Next
+     /\ ret'.k \in Kinds \cup {"advance"}
      /\ (ret.k = "advance" => ret'.k # "advance")     \* two clock steps in a row are one
      /\ hist' = IF ret'.k = "advance" THEN hist ELSE Append(hist, EntryOf(ret', clock'))
      /\ UNCHANGED <<done, limit0>>
